@@ -201,6 +201,56 @@ def rule_conversion(rep, repo, tier):
               (cfg, vs, txt), loc=loc, instance=cfg)
   if m < 30:
     raise AnalysisError("instance-count only %d conversions checked" % m)
+  # (c) the way back: an operand type converted to a qkeras quantizer
+  # (convert_to_qkeras_quantizer: how an accumulator type becomes a bias
+  # quantizer) and converted again is the same operand type
+  unit_c = "%s::convert_to_qkeras_quantizer" % qi.relpath
+  rep.unit(unit_c)
+  back = [("quantized_bits", dict(bits=6, integer=2, keep_negative=True)),
+          ("quantized_bits", dict(bits=5, integer=0, keep_negative=False)),
+          ("quantized_bits", dict(bits=12, integer=7, keep_negative=True)),
+          ("quantized_relu", dict(bits=6, integer=2)),
+          ("quantized_relu", dict(bits=3, integer=0)),
+          ("quantized_tanh", dict(bits=4)), ("quantized_ulaw", dict(bits=6,
+                                                                    integer=1)),
+          ("quantized_po2", dict(bits=4)),
+          ("quantized_po2", dict(bits=5, max_value=2)),
+          ("quantized_relu_po2", dict(bits=4)),
+          ("quantized_relu_po2", dict(bits=3, max_value=4)),
+          ("binary", dict(use_01=False)), ("binary", dict(use_01=True)),
+          ("ternary", {}), ("stochastic_binary", {}),
+          ("stochastic_ternary", {}), ("bernoulli", {})]
+  fields_c = fields + ("max_val_po2",)
+  k = 0
+  for cls, kw in back:
+    cfg = "%s(%s)" % (cls, ",".join("%s=%s" % kv for kv in kw.items()))
+    try:
+      pe, qk = quant.construct(repo, cls, kw)
+    except ConfigRejected:
+      continue
+    pe.opaque_ext = True
+    fac = pe.call(pe.lookup_global("QuantizerFactory", qf), [], {})
+    try:
+      t1 = pe.call(pe.getattr(fac, "make_quantizer"), [qk], {})
+      qk2 = pe.call(pe.getattr(t1, "convert_to_qkeras_quantizer"), [], {})
+      t2 = pe.call(pe.getattr(fac, "make_quantizer"), [qk2], {})
+    except (PyRaise, Unsupported) as e:
+      rep.fail("R9", unit_c, "reverse-conversion-raises", "%s: %s" % (cfg, e),
+               loc=loc, instance=cfg)
+      continue
+    if not (isinstance(t1, Obj) and isinstance(t2, Obj)):
+      continue
+    k += 1
+    f1 = {f_: t1.attrs.get(f_) for f_ in fields_c}
+    f2 = {f_: t2.attrs.get(f_) for f_ in fields_c}
+    rep.check(t1.cls is t2.cls and f1 == f2, "R9", unit_c,
+              "reverse-conversion-changes-type",
+              "%s: operand type %s %r becomes %s %r after "
+              "convert_to_qkeras_quantizer and back" % (
+                  cfg, t1.cls.name, f1, t2.cls.name, f2), loc=loc,
+              instance=cfg, observed="%s %r" % (t2.cls.name, f2))
+  if k < 14:
+    raise AnalysisError("instance-count only %d reverse conversions" % k)
 
 
 def rule_po2_product(rep, repo, tier):
